@@ -62,8 +62,8 @@ def vm_crosscheck(ctx, histories, model):
     ctx.ob('correspondence', f'vm_compute of KeysMachine.run inside Coq == extracted OCaml model on {len(picked)} script prefixes', ok, detail)
 
 
-def ensure_builds(ctx, configs=('default',)):
-    ok = vf.build_harness(ctx, configs)
+def ensure_builds(ctx, configs=('default',), optional=()):
+    ok = vf.build_harness(ctx, configs, optional)
     ok = vf.build_coq(ctx) and ok
     vf.forbidden_scan(ctx)
     vf.proof_obligations(ctx)
@@ -114,6 +114,11 @@ def run_profile(ctx, gen, n, config='default', claims=None, extra_oracle=None, t
             if a != got:
                 if claims is None or claims(scr[ln].split(' ')[0], a, got):
                     hits.append((h, ln, f'{" ".join(hist.pretty([scr[ln]]))}: expected {a} by the name-level semantics, implementation returned {got}', (a, got)))
+                    break
+                # a failed serialization round trip belongs to C13; the deserialized object REPLACES the original, and what
+                # follows is still judged by the reference semantics (a round trip must change nothing), so that the
+                # consequences for THIS property are found as a concrete failing history
+                if got == 'RTFAIL' and a == 'OK': continue
                 break
         for (ln, prop, what) in hist.generic_oracles(scr, out):
             if prop == ctx.prop: hits.append((h, ln, what, None))
@@ -132,7 +137,13 @@ def run_profile(ctx, gen, n, config='default', claims=None, extra_oracle=None, t
         def fails(c):
             out = vf.run_lines(vf.harness_bin('kdriver', config), c, timeout=120)[0]
             if len(out) != len(c): return 'stopped' in what
-            if first_mismatch(c, spec.predict(c), out) and 'expected' in what: return True
+            if 'expected' in what:
+                for ln2, (a2, b2) in enumerate(zip(spec.predict(c), out)):
+                    g2 = b2.split('|')[0]
+                    if a2 != g2:
+                        if claims is None or claims(c[ln2].split(' ')[0], a2, g2): return True
+                        if g2 == 'RTFAIL' and a2 == 'OK': continue
+                        break
             gv = [w for (_, p, w) in hist.generic_oracles(c, out) if p == ctx.prop]
             if gv and 'expected' not in what: return True
             if extra_oracle and extra_oracle(c, out) and 'expected' not in what: return True
